@@ -1290,6 +1290,57 @@ fn reduce_ref(seed: u64) -> serde_json::Value {
     json!({"found": false, "routine": "reduce_ref", "tried": tried})
 }
 
+// C17: LongDivision vs. floored division (quotient * divisor + remainder == dividend, remainder has the divisor's sign), unsigned and signed,
+// equal and different operand widths
+fn longdiv_ref(seed: u64) -> serde_json::Value {
+    use ciphercore_base::graphs::util::simple_context;
+    use ciphercore_base::ops::long_division::LongDivision;
+    let mut rng = Rng(seed | 1);
+    let mut tried = 0u64;
+    let types = |w: u32, signed: bool| -> ScalarType { match (w, signed) { (8, false) => UINT8, (8, true) => INT8, (16, false) => UINT16, (16, true) => INT16, (32, false) => UINT32, (32, true) => INT32, (64, false) => UINT64, _ => INT64 } };
+    for signed in [false, true] {
+        for (wa, wb) in [(8u32, 8u32), (16, 8), (8, 16), (16, 16), (32, 8), (64, 16)] {
+            let (ta, tb) = (types(wa, signed), types(wb, signed));
+            let n = 200usize;
+            // operands: corners and random; divisors include values above 2^(wb-1) (unsigned) and the most negative value (signed)
+            let ma: u128 = (1u128 << wa) - 1; let mb: u128 = (1u128 << wb) - 1;
+            let mut av: Vec<u64> = vec![0, 1, 2, ma as u64, (ma / 2) as u64, (ma / 2 + 1) as u64, 300 & ma as u64, 1000 & ma as u64, 40000 & ma as u64];
+            let mut bv: Vec<u64> = vec![1, 2, 3, mb as u64, (mb / 2) as u64, (mb / 2 + 1) as u64, (mb / 2 + 2) as u64, 200 & mb as u64, 129 & mb as u64];
+            while av.len() < n { av.push((rng.next() as u128 & ma) as u64 >> (rng.next() % wa as u64)); }
+            while bv.len() < n { let b = (rng.next() as u128 & mb) as u64 >> (rng.next() % wb as u64); bv.push(if b == 0 { 1 } else { b }); }
+            while bv.len() > av.len() { bv.pop(); } while av.len() > bv.len() { av.pop(); }
+            let n = av.len() as u64;
+            let r = catch_unwind(AssertUnwindSafe(|| -> Result<(Vec<u64>, Vec<u64>)> {
+                let c = simple_context(|g| { let x = g.input(array_type(vec![n], ta))?; let y = g.input(array_type(vec![n], tb))?;
+                    let r = g.custom_op(CustomOperation::new(LongDivision { signed }), vec![x.a2b()?, y.a2b()?])?;
+                    g.create_tuple(vec![r.tuple_get(0)?.b2a(ta)?, r.tuple_get(1)?.b2a(tb)?]) })?;
+                let m = run_instantiation_pass(c)?;
+                let g = m.get_context().get_main_graph()?;
+                let out = random_evaluate(g, vec![Value::from_flattened_array(&av, ta)?, Value::from_flattened_array(&bv, tb)?])?.to_vector()?;
+                Ok((out[0].to_flattened_array_u64(array_type(vec![n], ta))?, out[1].to_flattened_array_u64(array_type(vec![n], tb))?)) }));
+            let (q, rm) = match r { Ok(Ok(x)) => x, Ok(Err(e)) => return json!({"found": true, "routine": "longdiv_ref", "property": "C17", "input": {"signed": signed, "dividend_bits": wa, "divisor_bits": wb}, "observed": format!("error: {}", e)}),
+                Err(_) => return json!({"found": true, "routine": "longdiv_ref", "property": "C17", "input": {"signed": signed, "dividend_bits": wa, "divisor_bits": wb}, "observed": "panic"}) };
+            let sx = |v: u64, w: u32| -> i128 { let v = v as u128 & ((1u128 << w) - 1); if signed && (v >> (w - 1)) & 1 == 1 { v as i128 - (1i128 << w) } else { v as i128 } };
+            for i in 0..n as usize {
+                tried += 1;
+                let (a, b) = (sx(av[i], wa), sx(bv[i], wb));
+                let wq = a.div_euclid(b); let _ = wq;
+                let fq = { let q0 = a / b; if (a % b != 0) && ((a < 0) != (b < 0)) { q0 - 1 } else { q0 } };      // floored quotient
+                let fr = a - fq * b;
+                let (gq, gr) = (sx(q[i], wa), sx(rm[i], wb));
+                // the quotient may not fit the dividend's width only for MIN / -1; skip that one documented overflow
+                if signed && a == -(1i128 << (wa - 1)) && b == -1 { continue; }
+                if gq != fq || gr != fr {
+                    return json!({"found": true, "routine": "longdiv_ref", "property": "C17", "input": {"signed": signed, "dividend_bits": wa, "divisor_bits": wb, "dividend": a.to_string(), "divisor": b.to_string()},
+                        "expected": {"quotient": fq.to_string(), "remainder": fr.to_string()}, "observed": {"quotient": gq.to_string(), "remainder": gr.to_string()},
+                        "what": "LongDivision instantiated and evaluated by SimpleEvaluator vs. floored division"});
+                }
+            }
+        }
+    }
+    json!({"found": false, "routine": "longdiv_ref", "tried": tried})
+}
+
 // C06 / C04: optimize_context keeps the function of the graph, every input node, and never merges or drops-by-merging PRF / Random nodes
 fn optimizer_equiv(seed: u64) -> serde_json::Value {
     use ciphercore_base::evaluators::simple_evaluator::SimpleEvaluator;
@@ -1523,6 +1574,7 @@ fn main() {
         Some("prf_purity") => prf_purity(seed),
         Some("adder_small_widths") => adder_small_widths(seed),
         Some("clip_small_widths") => clip_small_widths(seed),
+        Some("longdiv_ref") => longdiv_ref(seed),
         Some("reduce_ref") => reduce_ref(seed),
         Some("inline_equiv") => inline_equiv(seed),
         Some("sort_reference") => sort_reference(seed),
